@@ -271,6 +271,10 @@ func (s *stack) push(p *Path) {
 		parent.Next = p
 		p.Parent = parent
 	}
+	if s.count == len(s.steps) {
+		// longer than the initial size
+		s.steps = append(s.steps, make([]*Path, len(s.steps)+1)...)
+	}
 	s.steps[s.count] = p
 	s.count++
 }
